@@ -59,29 +59,15 @@ func c22LiveAllocs(b *model.AllocationBlock) []int {
 // overwrites pendingDeletion with pending, finds the block "already claimed by this host"
 // (claimAffineBlock) and confirms with a CAS on the affinity only - it never writes the block,
 // so the releaser's block CAS still succeeds.  Result, without any fault: a confirmed affinity
-// for H on a block whose Affinity is nil (durable if the releaser dies before its retry).
+// for H on a block whose Affinity is nil (durable if the releaser dies before its retry).  When
+// the block is empty the releaser (also: another host reclaiming H's empty block inside
+// AutoAssign) deletes it instead; a third host can then claim the CIDR and the block ends up
+// with two confirmed affinities.
 const c22SigClaimDuringRelease = "c22-claim-confirms-while-release-strips-block-affinity"
 
-// releaseOfHostSeen: some operation that may release host h's affinities of non-empty blocks
-// has been started (running, finished or crashed).
-func (s *c22Scenario) releaseOfHostSeen(h string) bool {
-	for _, o := range s.r.ops {
-		switch o.Kind {
-		case c19ReleaseAffinity, c19ReleaseHostAffinities:
-			if o.TargetHost == h && !o.MustBeEmpty {
-				return true
-			}
-		case c19RemoveIPAMHost:
-			if o.TargetHost == h {
-				return true
-			}
-		}
-	}
-	return false
-}
-
 type c22Scenario struct {
-	knownHit bool
+	knownHit  bool
+	overwrote map[string]bool // "host|cidr": a claim rewrote this affinity from pendingDeletion to pending
 	t       *rapid.T
 	r       *c19Runner
 	w       *c19World
@@ -110,11 +96,25 @@ func (s *c22Scenario) checkState() {
 	sort.Strings(cidrs)
 	for _, c := range cidrs {
 		hs := confirmed[c]
+		// Known finding: a claim that overwrote the releaser's pendingDeletion mark (see
+		// c22SigClaimDuringRelease) - tolerate exactly the affinities that went through that.
+		known := false
+		if ev.Known(c22SigClaimDuringRelease) {
+			for _, h := range hs {
+				if s.overwrote[h+"|"+c] {
+					known = true
+				}
+			}
+		}
 		if len(hs) > 1 {
+			if known {
+				s.knownHit = true
+				continue
+			}
 			s.fail("step %d: block %s has %d confirmed affinities: %v", s.r.step, c, len(hs), hs)
 		}
 		if b, ok := snap.Blocks[c]; ok && b.Affinity != "host:"+hs[0] {
-			if b.Affinity == "" && ev.Known(c22SigClaimDuringRelease) && s.releaseOfHostSeen(hs[0]) {
+			if known {
 				s.knownHit = true
 				continue
 			}
@@ -126,6 +126,14 @@ func (s *c22Scenario) checkState() {
 // checkWrites: oracle parts 3 and 4 on the writes of the last step.
 func (s *c22Scenario) checkWrites(evs []memds.WriteEvent) {
 	for _, e := range evs {
+		if k, ok := e.Key.(model.BlockAffinityKey); ok {
+			oa, _ := e.Old.(*model.BlockAffinity)
+			na, _ := e.New.(*model.BlockAffinity)
+			if oa != nil && na != nil && oa.State == model.StatePendingDeletion && na.State == model.StatePending {
+				s.overwrote[k.Host+"|"+k.CIDR.String()] = true
+				s.classes["claim-overwrote-pending-deletion"] = true
+			}
+		}
 		if _, ok := e.Key.(model.BlockKey); !ok {
 			continue
 		}
@@ -236,7 +244,7 @@ func c22Run(t *rapid.T, rec *ev.Recorder, opsPerClient int) {
 	// hot blocks: two v4 blocks and one v6 block
 	gen.blocks4 = c19BlockCIDRs(c19PoolV4, 30)[:2]
 	gen.blocks6 = c19BlockCIDRs(c19PoolV6, 126)[:1]
-	s := &c22Scenario{t: t, w: w, strict: strict, hosts: hosts, classes: map[string]bool{}}
+	s := &c22Scenario{t: t, w: w, strict: strict, hosts: hosts, classes: map[string]bool{}, overwrote: map[string]bool{}}
 	fw := c19FaultWeights{Conflict: 30, Error: 5, CrashBefore: 5, CrashAfter: 5, MaxCrashes: 3}
 	s.r = c19NewRunner(t, w, fw)
 	gen.r = s.r
